@@ -296,7 +296,14 @@ func (in *Interp) eqTerm(t types.Type, x, y Value) *Term {
 	switch x := x.(type) {
 	case *Term:
 		return tt.Eq(x, y.(*Term))
+	case FloatInt:
+		a, b, _ := in.floatIntPair(x, y)
+		return tt.Eq(a, b)
 	case float64:
+		if _, isFI := y.(FloatInt); isFI {
+			a, b, _ := in.floatIntPair(x, y)
+			return tt.Eq(a, b)
+		}
 		return tt.Bool(x == y.(float64))
 	case complex128:
 		return tt.Bool(x == y.(complex128))
